@@ -303,4 +303,17 @@ def addHazards (v : Variant) (fl : Caps) : State → List Ref → List UUID
     | (s', .pkt _) => here ++ addHazards v fl s' hs
     | _ => here
 
+/-- the op does not run into one of the three recorded hazards (stale handle, profile replaced by `Add`,
+    setter on an entry stored under the all-zero uuid) -/
+def opOk (fl : Caps) (s : State) : Op → Bool
+  | .add hs => (addHazards repaired fl s (hs.map Ref.api)).isEmpty
+  | .set h _ => !staleRef s (.api h)
+  | .setCur u f => !nilSetHazard fl s u f
+  | _ => true
+
+/-- no op of the history runs into a recorded hazard, each judged in the state it is executed in -/
+def histOk (fl : Caps) : State → List Op → Bool
+  | _, [] => true
+  | s, op :: ops => opOk fl s op && histOk fl (step repaired fl s op).1 ops
+
 end Gate.C28
